@@ -17,7 +17,7 @@ use serde_json::json;
 
 pub const ID: &str = "C16";
 
-pub const RULE: &str = "cases = (grammar, token tree). A token tree is written as a bracketed token string (a b c and group brackets) and laid out with generated GAPPED spans (a group's span covers its brackets and children; the eoi span handed to the inner input is the whole group span, the closing bracket, or an empty span there); depth up to 4. Grammars: C01/C02-class grammars with validate emitters, recover_with, span captures (to_span, map_with(span), try_map / validate spans), recursion, and nested_in(select_ref!{Group(children) => children.map(eoi, ..)}) at arbitrary nodes and nesting (nested_in inside nested_in, inside choice / repeated / or_not / recover_with, recursive through groups). Inputs: sentences derived from the grammar (brackets where the grammar nests) with 0..2 edits incl. inserted / deleted brackets and tokens, random bracketed strings, and EVERY bracketed string up to a length bound for a fixed list of templates (10 inner grammars x 9 outer shapes). Oracle: the reference applied recursively -- run the group selector, run the inner grammar on exactly the group's children, succeed only if it consumed all of them, advance the outer input by the one group token; the output (with every captured span, inner ones in the inner tokens' own offsets) must be equal; errors emitted inside appear in the outer error list in order (subject to outer backtracking like any emission), with their inner spans; when the parse fails the reported error must be the furthest failure where a failed nested parse counts just after (admissible variant: at) its group token and carries the inner error's content and span; check() must agree with parse() on has_output and the error list. Reference-free: for a top-level nested_in the result must equal running the inner grammar directly on the children. NON-TRIVIAL = some nested parse on the explored path emitted, failed, or matched only a proper prefix of its inner input; distinct by (grammar, tree, span layout).";
+pub const RULE: &str = "cases = (grammar, token tree). A token tree is written as a bracketed token string (a b c and group brackets) and laid out with generated GAPPED spans (a group's span covers its brackets and children; the eoi span handed to the inner input is the whole group span, the closing bracket, or an empty span there); depth up to 4. Grammars: C01/C02-class grammars with validate emitters, recover_with, span captures (to_span, map_with(span), try_map / validate spans), recursion, and nested_in(select_ref!{Group(children) => children.map(eoi, ..)}) at arbitrary nodes and nesting (nested_in inside nested_in, inside choice / repeated / or_not / recover_with, recursive through groups). Inputs: sentences derived from the grammar (brackets where the grammar nests) with 0..2 edits incl. inserted / deleted brackets and tokens, random bracketed strings, and EVERY bracketed string up to a length bound for a fixed list of templates (10 inner grammars x 9 outer shapes). Oracle: the reference applied recursively -- run the group selector, run the inner grammar on exactly the group's children, succeed only if it consumed all of them, advance the outer input by the one group token; the output (with every captured span, inner ones in the inner tokens' own offsets) must be equal; errors emitted inside appear in the outer error list in order (subject to outer backtracking like any emission), with their inner spans; when the parse fails the reported error must be the furthest failure where a failed nested parse counts just after (admissible variant: at) its group token and carries the inner error's content and span; check() must agree with parse() on has_output and the error list; the same grammar built with the zero-sized EmptyErr must give the same has_output in parse and check, at least one error when it fails, and never panic. Reference-free: for a top-level nested_in the result -- output, and the complete error list also when the parse FAILS (the errors emitted inside before the failure plus the inner failure) -- must equal running the inner grammar directly on the children. NON-TRIVIAL = some nested parse on the explored path emitted, failed, or matched only a proper prefix of its inner input; distinct by (grammar, tree, span layout).";
 
 pub const ASSUMPTIONS: &[&str] = &[
     "the reference evaluator (harness/src/reference.rs) applied recursively; admissible variants: V-nested-pos (the failure of a nested parse is ranked just after / at its group token), V-nested-leftover (a nested parse that succeeded does / does not leave its unused failure events behind), plus V-lead, V-trail-cap, V-take as in C02 / C08",
@@ -133,6 +133,24 @@ pub fn check_inner(sub: &str, g: &G, flat: &[char], seed: u64, l: &mut Local) ->
     if c.has_output != o.has_output || c.errs != o.errs {
         return fail(case, "C16/check-vs-parse", format!("check: has_output={} errors {:?}; parse: has_output={} errors {:?}", c.has_output, c.errs, o.has_output, o.errs));
     }
+    // the same grammar with the zero-sized error type (separate fast paths in the failure-recording code): an inner
+    // failure must still reach the outer result -- same has_output, never a panic, never a silent failure
+    {
+        let mut be = Bld::<TTIn, chumsky::error::EmptyErr>::new(g, false);
+        be.cap_spans = true; // same values as the Rich build (value-dependent predicates must decide alike)
+        let pe = be.build(g);
+        let oe = run_parse(&pe, tt_input(tsl, eoi_sp));
+        let ce = run_check(&pe, tt_input(tsl, eoi_sp));
+        l.evals += 2;
+        if let Some(m) = oe.panic.as_ref().or(ce.panic.as_ref()) {
+            return fail(case, "C16/panic-zero-sized-error", format!("parse/check with EmptyErr panicked: {} (Rich: has_output={} errors {:?})", m, o.has_output, o.errs));
+        }
+        for (what, x) in [("parse", &oe), ("check", &ce)] {
+            if x.has_output != o.has_output || (!x.has_output && x.errs.is_empty()) {
+                return fail(case, "C16/zero-sized-error", format!("{}() with EmptyErr: has_output={} with {} errors; with Rich: has_output={} errors {:?}", what, x.has_output, x.errs.len(), o.has_output, o.errs));
+            }
+        }
+    }
     let mut first = None;
     let mut matched = None;
     for (i, r) in refs.iter().enumerate() {
@@ -170,16 +188,20 @@ pub fn check_inner(sub: &str, g: &G, flat: &[char], seed: u64, l: &mut Local) ->
             if d.has_output != o.has_output || d.out != o.out {
                 return fail(case, "C16/direct", format!("nested: has_output={} output {:?}; the inner grammar directly on the children: has_output={} output {:?}", o.has_output, o.out, d.has_output, d.out));
             }
-            if o.has_output {
-                // same emitted errors, same spans (both in the inner tokens' offsets)
-                let key = |e: &ErrDesc| (e.span, e.custom.clone(), e.expected.clone());
-                let mut a: Vec<_> = d.errs.iter().map(key).collect();
-                let mut b: Vec<_> = o.errs.iter().map(key).collect();
-                a.sort();
-                b.sort();
-                if a != b {
-                    return fail(case, "C16/direct", format!("errors of the nested parse {:?} differ from those of the inner grammar run directly {:?}", o.errs, d.errs));
-                }
+            // same errors, same spans (both in the inner tokens' offsets): with an output these are the emitted
+            // errors; without one, the errors emitted inside before the failure AND the inner failure itself --
+            // nothing outside backtracks here, so all of them "surface in the outer result"
+            let key = |e: &ErrDesc| (e.span, e.custom.clone(), e.expected.clone());
+            let mut a: Vec<_> = d.errs.iter().map(key).collect();
+            let mut b: Vec<_> = o.errs.iter().map(key).collect();
+            a.sort();
+            b.sort();
+            if a != b {
+                let sig = if o.has_output { "C16/direct" } else { "C16/direct-failed" };
+                return fail(case, sig, format!("errors of the nested parse {:?} differ from those of the inner grammar run directly on the children {:?}", o.errs, d.errs));
+            }
+            if !o.has_output && o.errs.len() >= 2 {
+                l.bump("direct_failed_parse_with_emitted_errors");
             }
         }
     }
@@ -279,6 +301,10 @@ pub fn decode(tape: &[u32]) -> (G, Vec<char>, u64) {
         let mut gg = GGen::new(&mut t, cfg());
         let d = 2 + gg.t.pick(4) as u32;
         let mut g = gg.gen(d, false);
+        if gg.t.chance(1, 6) {
+            // a nested parser at the very top (its result can be compared with the inner grammar run directly)
+            g = G::NestedIn(b(g));
+        }
         if !g.any_node(&|n| matches!(n, G::NestedIn(_))) {
             // make sure there is something nested: wrap a sub-grammar
             let inner = gg.gen(d.min(3), true);
@@ -326,14 +352,14 @@ pub fn run(tier: Tier, seed: u64) -> i32 {
         }
         Ok(())
     });
-    let n = ctx.pick(1_000_000, 12_000_000);
+    let n = ctx.pick(3_000_000, 16_000_000);
     ctx.par_random(n, 220, 16, |tape, l| {
         let (g, input, seed) = decode(tape);
         debug_assert!(wf(&g), "ill-formed: {}", render(&g));
         check_inner("random", &g, &input, seed, l)
     });
     ctx.finish(&check_case, RULE, ASSUMPTIONS, &|l| {
-        for k in ["nested_parse_entered", "inner_parse_emitted", "inner_parse_failed", "inner_parse_matched_proper_prefix_only", "outer_grammar_backtracked_over_a_failed_nested_parse", "nesting_depth_2_or_more", "direct_comparisons", "clean_accept", "output_with_errors", "rejected"] {
+        for k in ["nested_parse_entered", "inner_parse_emitted", "inner_parse_failed", "inner_parse_matched_proper_prefix_only", "outer_grammar_backtracked_over_a_failed_nested_parse", "nesting_depth_2_or_more", "direct_comparisons", "direct_failed_parse_with_emitted_errors", "clean_accept", "output_with_errors", "rejected"] {
             if l.counters.get(k).copied().unwrap_or(0) == 0 {
                 return Err(format!("class '{}' is empty", k));
             }
